@@ -9,7 +9,7 @@
    in any order and of any length (vr = Original: the code before fix C10-batcher-wedge, Fixed: the
    current code; iv = the interval). So "forall s, reachable ... s -> ..." = for every schedule. *)
 From Kit Require Import C10.Model C10.Spec C10.Check.
-From Kit Require C10.Proofs_debounce C10.Proofs_seq C10.Proofs_wedge C10.Proofs_oracle.
+From Kit Require C10.Proofs_debounce C10.Proofs_seq C10.Proofs_wedge C10.Proofs_oracle C10.Proofs_e2e.
 Import Proofs_seq Proofs_wedge.
 
 (* ---- debounce ------------------------------------------------------------------------- *)
@@ -188,6 +188,63 @@ Theorem C10_wedge_refuted :
     forall es' s', run Original 2%Z s es' = Some s' -> cl s' = CWaitLoop /\ lock s' <> Free.
 Proof. exact Proofs_wedge.wedge_refuted. Qed.
 Print Assumptions C10_wedge_refuted.
+
+(* ---- end to end: from the Batch call to the consumer ------------------------------------- *)
+
+(* Whenever the batcher is at rest (none of its own steps possible) with the lock free, a subscriber
+   that stayed (accepted, context alive, batcher open) and whose consumer is receiving has nothing
+   left in its buffer or with its forwarder, and has RECEIVED exactly the values of the Batch calls
+   the queue has handed over since it subscribed — each once, in hand-over order. *)
+Theorem C10_at_rest_received : forall vr iv s,
+  reachable vr iv s -> stuck vr iv s -> lock s = Free ->
+  forall i b, nth_error (subs s) i = Some b -> Proofs_e2e.staying_reader s b ->
+    fwd b = Idle /\ buf b = [] /\ received b = skipn (start b) (fired_vals s).
+Proof. exact Proofs_e2e.at_rest_received. Qed.
+Print Assumptions C10_at_rest_received.
+
+(* Nothing is lost, also after back-pressure: at rest with the lock free and the queue alive, the
+   most recent Batch call of every key whose interval has elapsed HAS been handed over (not before
+   its interval had elapsed) and every staying, reading subscriber that was subscribed by then has
+   received its value. *)
+Theorem C10_end_to_end : forall vr iv s,
+  reachable vr iv s -> stuck vr iv s -> lock s = Free -> loop_dead s = false ->
+  forall id k v t, nth_error (hist s) id = Some (k, v, t) ->
+    (forall id' v' t', (id < id')%nat -> nth_error (hist s) id' <> Some (k, v', t')) ->
+    (t + iv <= now s)%Z ->
+    exists n tp, nth_error (fired s) n = Some (id, tp) /\ (t + iv <= tp)%Z /\
+      forall i b, nth_error (subs s) i = Some b -> Proofs_e2e.staying_reader s b ->
+        (start b <= n)%nat -> In v (received b).
+Proof. exact Proofs_e2e.end_to_end. Qed.
+Print Assumptions C10_end_to_end.
+
+(* The boolean form of the first theorem, which the correspondence evaluates on the model state
+   after every script step of every case, is indeed always true. *)
+Theorem C10_e2e_okb_holds : forall vr iv s,
+  reachable vr iv s -> stuck vr iv s -> lock s = Free -> e2e_okb s = true.
+Proof. exact Proofs_e2e.e2e_okb_holds. Qed.
+Print Assumptions C10_e2e_okb_holds.
+
+(* Once ANY Close call has returned, every subscriber channel is in its FINAL state: closed (the
+   subscription was accepted) or open for ever (silently dropped) — and no continuation whatsoever
+   changes the state of any channel, existing or subscribed later. "Open when Close returned,
+   closed a little later" is impossible. This is the clause the harness's race and mass families
+   sample (channel state at the instant Close returns, and again at rest). *)
+Theorem C10_close_state_final : forall vr iv s,
+  reachable vr iv s -> any_returned s ->
+  (forall b, In b (subs s) ->
+     (accepted b = true /\ user_closed b = true) \/ (accepted b = false /\ user_closed b = false)) /\
+  forall es s', run vr iv s es = Some s' ->
+    any_returned s' /\ forall i, Proofs_e2e.uclosed_of s' i = Proofs_e2e.uclosed_of s i.
+Proof. exact Proofs_e2e.close_state_final. Qed.
+Print Assumptions C10_close_state_final.
+
+(* "... never blocks later Batch calls": a Batch call (and the issuing of a Subscribe call) is
+   possible in EVERY state — Batch takes no batcher lock. *)
+Theorem C10_calls_never_blocked : forall vr iv s,
+  (forall k v, exists s', step vr iv s (Batch k v) = Some s') /\
+  (forall id p c, exists s', step vr iv s (SubscribeCall id p c) = Some s').
+Proof. exact Proofs_e2e.calls_never_blocked. Qed.
+Print Assumptions C10_calls_never_blocked.
 
 (* ---- the oracle applied to the implementation's observations decides the spec ------------- *)
 
